@@ -141,6 +141,19 @@ def _under_test(filename):
     return os.path.abspath(filename).startswith(root + os.sep)
 
 
+def raised_in_harness(e) -> bool:
+    """True when the exception was raised by a statement of /verif itself (the innermost traceback frame is not in the tree
+    under test): the harness called something in a way this tree no longer accepts - a private parameter list, a private
+    attribute.  Checks re-raise such an exception from the handlers in which they turn the tree's own failures into outcomes,
+    so that it ends as 'not decided' in _worker instead of as a finding."""
+    tb = e.__traceback__
+    last = None
+    while tb is not None:
+        last = tb.tb_frame.f_code.co_filename
+        tb = tb.tb_next
+    return bool(last) and not _under_test(last) and os.path.abspath(last).startswith(ROOT + os.sep)
+
+
 def _worker(arg):
     idx, block = arg
     deadline, tier, seed = _RUN
